@@ -6,6 +6,8 @@ CONSTANT Acc <- MCAcc
 CONSTANT Opt <- MCOpt
 CONSTANT Mdl <- MCMdl
 CONSTANT InPlace <- MCInPlace
+CONSTANT Needs <- MCNeeds
+CONSTANT Establishes <- MCEst
 CONSTANT MaxLen = 3
 CONSTANT Policy = "as_is"
 CONSTANT SeedsRng = TRUE
